@@ -102,6 +102,11 @@ func (d *scripted) cb(ir *fast.Interp, env *fast.Env, bp bool) fast.DebugOp {
 	if env.IP < len(env.DebugPos) {
 		pos = int(env.DebugPos[env.IP])
 	}
+	stockPos := pos
+	if env.CallDepth == 0 && pos > 0 {
+		// top-level statements are re-parsed by every Interp.Debug/Eval call: their positions differ from run to run
+		pos = -2
+	}
 	c := d.def
 	if d.i < len(d.script) {
 		c = d.script[d.i]
@@ -111,7 +116,7 @@ func (d *scripted) cb(ir *fast.Interp, env *fast.Env, bp bool) fast.DebugOp {
 	if len(d.recs) > d.limit {
 		panic(tooMany{})
 	}
-	if d.stock != nil && pos != 0 {
+	if d.stock != nil && stockPos != 0 {
 		// a statement with a position: the stock debugger shows it and prompts; answer with the command word
 		d.pending = cmdWord[c] + "\n"
 		var op fast.DebugOp
@@ -318,7 +323,7 @@ func sameActivationOrCallee(tr []tstmt, j int) bool {
 func coqTrace(tr []tstmt) string {
 	el := make([]string, len(tr))
 	for i, s := range tr {
-		el[i] = fmt.Sprintf("mkStmt %d %d %s %s", s.Depth, s.Pos, vh.CoqBool(s.Bp), vh.CoqBool(s.Entry))
+		el[i] = fmt.Sprintf("mkStmt %d (%d) %s %s", s.Depth, s.Pos, vh.CoqBool(s.Bp), vh.CoqBool(s.Entry))
 	}
 	return vh.CoqList(el, "stmt")
 }
